@@ -1,6 +1,5 @@
-(* C10 — Reassembly never invents or mixes messages (s/fragswarm; the mbapp
-   collector is tied by correspondence, its theorem is in Props/C10mb.v when present). *)
-From P2PV Require Import Lib.Base Lib.Varint Model.Frag Proofs.FragP.
+(* C10 — Reassembly never invents or mixes messages (s/fragswarm and p/mbapp). *)
+From P2PV Require Import Lib.Base Lib.Varint Model.Frag Model.Mbapp Proofs.FragP Proofs.MbappP.
 Open Scope N_scope.
 
 (* For every ledger of sent messages with distinct (source, id), every schedule
@@ -45,5 +44,46 @@ Proof.
           |exists mB; split; [right; now left|]; split; [exact WB|]; split; [reflexivity|]; vm_compute; tauto].
 Qed.
 
+(* ---- p/mbapp ---- *)
+(* For every ledger of sent messages with distinct (source, origin time, counter,
+   ask/reply bits), whatever part size each sender used, every schedule of
+   genuine packets of those messages from their true sources (any order, any
+   multiplicity, any omissions) interleaved with any cleanups of partial state:
+   every payload the collector hands on is exactly the payload of a ledger
+   message of that source. *)
+Theorem C10_mbapp_reassembly_sound : forall L mtu, NoDup (map ms_key L) ->
+  forall acts, Forall (mb_ok_action L) acts ->
+  forall src p, In (src, p) (mb_run_sched mtu [] acts) ->
+    exists m, In m L /\ ms_src m = src /\ ms_payload m = p.
+Proof. intros L mtu Hnd acts Hall. exact (mb_reassembly_sound L mtu Hnd acts [] (mb_inv_init L) Hall). Qed.
+
+(* what the sender emits for a message is genuine for it (the header survives
+   the wire: parse_mb (encode_header h ++ body) = (h, body)) *)
+Theorem C10_mbapp_sender_genuine : forall inner (h0 : mb_header) src payload pkts,
+  (1 <= part_size inner)%Z ->
+  h_origin h0 < 2 ^ 32 -> h_counter h0 < 2 ^ 32 -> h_timeout h0 < 2 ^ 32 -> h_err h0 < 256 ->
+  lenN payload < 2 ^ 32 -> lenN (chunks (Z.to_nat (part_size inner)) payload) < 2 ^ 16 ->
+  mb_send inner h0 payload = Ok pkts ->
+  let m := mkMs src (h_origin h0) (h_counter h0) (h_ask h0) (h_reply h0) (Z.to_nat (part_size inner)) payload in
+  wf_ms m /\ forall pkt, In pkt pkts -> genuine_mb [m] src pkt.
+Proof. exact mb_send_genuine. Qed.
+
+Theorem C10_mbapp_header_roundtrip : forall h body, hdr_in_range h -> parse_mb (encode_header h ++ body) = Ok (h, body).
+Proof. exact parse_encode. Qed.
+
+(* non-vacuity: a 5-byte message in 2-byte parts, sent by the model sender,
+   delivered last part first with a duplicate *)
+Definition mb_h0 := mkHdr false false 0 77 3 0 0 0 9.
+Example C10_mbapp_nonvacuous :
+  match mb_send 26 mb_h0 [1; 2; 3; 4; 5] with
+  | Ok [p0; p1; p2] =>
+      mb_run_sched 65536 [] [MDeliver [48] p2; MDeliver [48] p0; MDeliver [48] p0; MDeliver [48] p1] = [([48], [1; 2; 3; 4; 5])]
+  | _ => False
+  end.
+Proof. vm_compute. reflexivity. Qed.
+
 Print Assumptions C10_reassembly_sound.
+Print Assumptions C10_mbapp_reassembly_sound.
+Print Assumptions C10_mbapp_sender_genuine.
+Print Assumptions C10_mbapp_header_roundtrip.
 Print Assumptions C10_sender_emits_fragments.
